@@ -85,11 +85,14 @@ pub fn rewrite_item(item: &mut Item, unit: &Unit, log: &mut Log, lifted: &mut Ve
         Item::Trait(t) => {
             t.attrs.clear();
             t.vis = parse_quote!(pub);
-            if !t.supertraits.is_empty() {
-                log.entries.push(("R7".into(), t.ident.to_string(), "supertrait bounds (fmt::Debug) dropped".into()));
+            let keep = unit.opts.get("keep_supertraits").and_then(|v| v.as_array()).map(|a| a.iter().any(|x| x.as_str() == Some(&t.ident.to_string()))).unwrap_or(false);
+            if !keep {
+                if !t.supertraits.is_empty() {
+                    log.entries.push(("R7".into(), t.ident.to_string(), "supertrait bounds (fmt::Debug) dropped".into()));
+                }
+                t.supertraits.clear();
+                t.colon_token = None;
             }
-            t.supertraits.clear();
-            t.colon_token = None;
             for ti in t.items.iter_mut() {
                 if let TraitItem::Fn(f) = ti {
                     f.attrs.clear();
@@ -308,6 +311,9 @@ fn rewrite_fn(name: &str, sig: &mut Signature, block: &mut Block, unit: &Unit, l
         }
     }
     let mut rw = Body::new(unit, log, name.to_string(), lifted);
+    if rw.opt_list("inline_closures").iter().any(|f| *f == name || *f == short) {
+        rw.rule_inline_closures(block);
+    }
     if rw.opt_list("pipeline").iter().any(|f| *f == name || *f == short) {
         if !rw.rule_pipeline(block, &sig.output) {
             fail(&format!("lost anchor: the tail of {name} is not a linear adapter chain of the shape rule R30 covers"));
@@ -376,6 +382,99 @@ impl<'a> Body<'a> {
     /// remaining map stages.  Side conditions checked here: a linear chain of these adapters only, one-parameter closures.
     /// What is dropped: laziness (the closures are called stage by stage instead of interleaved) — equivalent when the
     /// closures do not share mutable state, which rustc's borrow checker re-checks on the rewritten body.
+    /// R31: a local closure `let [mut] f = |p..| BODY;` that is only ever called directly (`f(a..)`) is inlined at its call sites
+    /// (beta reduction): `{ let p = a; ..; BODY }`; a parameter whose argument is the variable of the same name needs no binding
+    fn rule_inline_closures(&mut self, block: &mut Block) {
+        let mut defs: Vec<(Ident, ExprClosure)> = vec![];
+        for st in block.stmts.iter() {
+            if let Stmt::Local(l) = st {
+                if let (Pat::Ident(pi), Some(init)) = (&l.pat, &l.init) {
+                    if let Expr::Closure(c) = &*init.expr {
+                        defs.push((pi.ident.clone(), c.clone()));
+                    }
+                }
+            }
+        }
+        for (name, clo) in defs {
+            struct Uses<'u> { name: &'u Ident, calls: usize, other: usize }
+            impl<'u> VisitMut for Uses<'u> {
+                fn visit_expr_mut(&mut self, e: &mut Expr) {
+                    if let Expr::Call(c) = e {
+                        if let Expr::Path(p) = &*c.func {
+                            if p.path.is_ident(self.name) {
+                                self.calls += 1;
+                                for a in c.args.iter_mut() { self.visit_expr_mut(a); }
+                                return;
+                            }
+                        }
+                    }
+                    if let Expr::Path(p) = e {
+                        if p.path.is_ident(self.name) { self.other += 1; }
+                    }
+                    visit_mut::visit_expr_mut(self, e);
+                }
+            }
+            let mut u = Uses { name: &name, calls: 0, other: 0 };
+            let mut probe = block.clone();
+            u.visit_block_mut(&mut probe);
+            if u.calls == 0 || u.other != 0 {
+                continue;
+            }
+            struct Inl<'u> { name: &'u Ident, clo: &'u ExprClosure }
+            impl<'u> VisitMut for Inl<'u> {
+                fn visit_expr_mut(&mut self, e: &mut Expr) {
+                    visit_mut::visit_expr_mut(self, e);
+                    if let Expr::Call(c) = e {
+                        if let Expr::Path(p) = &*c.func {
+                            if p.path.is_ident(self.name) && c.args.len() == self.clo.inputs.len() {
+                                let mut binds = TokenStream::new();
+                                for (pat, arg) in self.clo.inputs.iter().zip(c.args.iter()) {
+                                    let inner = match pat { Pat::Type(pt) => &*pt.pat, other => other };
+                                    let same = match (inner, arg) {
+                                        (Pat::Ident(pi), Expr::Path(ap)) => ap.path.is_ident(&pi.ident),
+                                        _ => false,
+                                    };
+                                    if !same {
+                                        binds.extend(quote!(let #pat = #arg;));
+                                    }
+                                }
+                                let body = &self.clo.body;
+                                *e = parse_expr(quote!({ #binds #body }));
+                            }
+                        }
+                    }
+                }
+            }
+            let mut inl = Inl { name: &name, clo: &clo };
+            inl.visit_block_mut(block);
+            block.stmts.retain(|st| !matches!(st, Stmt::Local(l) if matches!(&l.pat, Pat::Ident(pi) if pi.ident == name)));
+            self.note("R31", format!("local closure `{}` inlined at its {} call sites", name, u.calls));
+            // an inlined call in statement position leaves `{ { .. } };`: blocks without bindings are spliced into their parent
+            struct Flat;
+            impl VisitMut for Flat {
+                fn visit_block_mut(&mut self, b: &mut Block) {
+                    visit_mut::visit_block_mut(self, b);
+                    let old = std::mem::take(&mut b.stmts);
+                    for st in old {
+                        match st {
+                            Stmt::Expr(Expr::Block(inner), semi) if inner.label.is_none() && inner.attrs.is_empty() && !inner.block.stmts.iter().any(|x| matches!(x, Stmt::Local(_) | Stmt::Item(_)))
+                                && (semi.is_some() || !matches!(inner.block.stmts.last(), Some(Stmt::Expr(_, None))) || matches!(inner.block.stmts.last(), Some(Stmt::Expr(Expr::If(_), None)) | Some(Stmt::Expr(Expr::Block(_), None)))) && semi.is_some() => {
+                                let mut inner_stmts = inner.block.stmts;
+                                // a trailing expression of unit type becomes a statement
+                                if let Some(Stmt::Expr(e, None)) = inner_stmts.pop() {
+                                    inner_stmts.push(Stmt::Expr(e, Some(Default::default())));
+                                }
+                                b.stmts.extend(inner_stmts);
+                            }
+                            other => b.stmts.push(other),
+                        }
+                    }
+                }
+            }
+            for _ in 0..3 { Flat.visit_block_mut(block); }
+        }
+    }
+
     /// R30: a linear adapter chain `SRC.iter()[.enumerate()] (.map|.filter)* .limit_sort_unstable(L, CMP) (.map|.filter)* .collect()`
     /// as the tail expression of the function, or as the initialiser of a `let`, becomes two staged `while` loops around
     /// `limit_sort_all(items, L, CMP)`.
@@ -707,6 +806,24 @@ impl<'a> Body<'a> {
             }
             Expr::MethodCall(m) => {
                 let method = m.method.to_string();
+                if (method == "sort_by" || method == "sort_unstable_by") && m.args.len() == 1 {
+                    // R33: `V.sort_by(|x, y| F(x, y))` -> `vsort_by(V, F)` (the closure only forwards to the comparator F)
+                    if let Expr::Closure(c) = &m.args[0] {
+                        if c.inputs.len() == 2 {
+                            if let Expr::Call(call) = &*c.body {
+                                let names: Vec<String> = c.inputs.iter().map(|p| p.to_token_stream().to_string()).collect();
+                                let args: Vec<String> = call.args.iter().map(|a| a.to_token_stream().to_string()).collect();
+                                if names == args {
+                                    let (v, f) = (&m.receiver, &call.func);
+                                    let helper = ident(if method == "sort_by" { "vsort_by" } else { "vsort_unstable_by" });
+                                    self.note("R33", format!("`V.{method}(|x, y| F(x, y))` -> {helper}(V, F)"));
+                                    *e = parse_expr(quote!(#helper(#v, #f)));
+                                    return;
+                                }
+                            }
+                        }
+                    }
+                }
                 if method == "abs" && m.args.is_empty() {
                     // (a as isize - b as isize).abs()
                     if let Expr::Binary(b) = strip_paren(&m.receiver) {
@@ -939,6 +1056,13 @@ impl<'a> Body<'a> {
                 let t = ident(&format!("__t{k}"));
                 self.note("R8", "`for x in E { V.push(x); }` -> V.append(&mut E)".into());
                 parse_stmts(quote!( let mut #t = #src; #v.append(&mut #t); ))
+            }
+            Stmt::Expr(Expr::While(w), _) if matches!(&*w.cond, Expr::Let(_)) => {
+                // R32: `while let P = E { B }` -> `loop { match E { P => { B } _ => { break; } } }`
+                let Expr::Let(l) = &*w.cond else { unreachable!() };
+                let (pat, ex, body) = (&l.pat, &l.expr, &w.body);
+                self.note("R32", "`while let P = E { B }` -> loop / match / break".into());
+                parse_stmts(quote!( loop { match #ex { #pat => #body _ => { break; } } } ))
             }
             Stmt::Expr(Expr::ForLoop(fl), _) => {
                 if let Some(v) = self.rule_enumerate(fl) {
